@@ -20,8 +20,8 @@ func vStrL() string {
 }
 
 func vC04Elem(allowVoid bool) JsonNode {
-	n := 10
-	if allowVoid {
+	n := vParam("KINDS", 10)
+	if allowVoid && n == 10 {
 		n = 11
 	}
 	if vParam("RICH", 0) == 1 {
